@@ -53,7 +53,7 @@ Example starttls_injection_instance :
     = [[250;250;250;250;250]; [220]; [221]]%Z.
 Proof. vm_compute. split; reflexivity. Qed.
 
-(** the 220 of STARTTLS is a reply the step function writes (Proofs/SmtpReplies.v exempts 220 as the greeting's code) *)
+(** the 220 of STARTTLS is a reply the step function writes (Proofs/SmtpReplies.v has it among its witnesses since the exemption of 220 was removed) *)
 Example starttls_writes_220 :
   exists s', step c_tls {| st := READY; from := None; rcpts := []; helo := [97]; tls := false |} (L Starttls) = Ok s' (one 220) [].
 Proof. eexists. reflexivity. Qed.
